@@ -33,7 +33,7 @@ LEVEL_NOTE = ("NOT modelled: the Go memory model (the model is sequential consis
 TRUSTED = ["the Go race detector (ThreadSanitizer runtime) and the harness's classification of its reports by stack frames",
            "footprints declared for objects outside the heap model (coq/Heap/Conc.v scen_ops), read off traversal/common.go, node/bindnode/infer.go",
            "node/basicnode as modelled in coq/Heap/BasicHeap.v (see C11)"]
-RULE = ("10 scenario kinds (incl. clonets: schema.Clone / MergeTypeSystem out of a shared type system that others read, source described before/after; stopat: one compiled ExploreRecursive with a stopAt link condition walked by all) x GOMAXPROCS in {1,2,16} with 2-7 goroutines, plus generated 'basic' scenarios: 1-3 shared basicnode values, "
+RULE = ("12 scenario kinds (incl. the four {Ctx nil/set} x {chooser nil/set} shared traversal.Configs through WalkMatching/WalkAdv/Get/Focus/WalkTransforming/FocusedTransform with the Config described field by field after every call; clonets: schema.Clone / MergeTypeSystem out of a shared type system that others read, source described before/after; stopat: one compiled ExploreRecursive with a stopAt link condition walked by all) x GOMAXPROCS in {1,2,16} with 2-7 goroutines, plus generated 'basic' scenarios: 1-3 shared basicnode values, "
         "2-6 goroutines x 3-8 ops from the read-only vocabulary (dump, lookup, DeepEqual, Copy, dag-cbor/dag-json encode, walk with "
         "a shared selector+Config, FocusedTransform, fresh builds, AssignNode shortcut); distinct = distinct (kind, procs, spec); "
         "non-trivial = every scenario")
